@@ -71,6 +71,12 @@ package server
 //@ func (*fsmHandler).openconfirm
 //@   claims at-call
 //@   at-call ^bgp.NewBGPNotificationMessage(bgp.BGP_ERROR_FSM_ERROR requires arg1 == bgp.BGP_ERROR_SUB_RECEIVE_UNEXPECTED_MESSAGE_IN_OPENCONFIRM_STATE && m.Header.Type != bgp.BGP_MSG_KEEPALIVE && m.Header.Type != bgp.BGP_MSG_NOTIFICATION
+// from C07 "a session only moves Idle -> Active -> ...; the reported session/admin state always matches the real one":
+// whenever the FSM falls back to Idle - for whatever reason - the goroutine that dials the peer is stopped (Active
+// starts it again); left running it connects and sends an OPEN on behalf of a neighbour that is Idle, or disabled
+//@ func (*fsmHandler).loop
+//@   claims step
+//@   loop 0 step nextState == bgp.BGP_FSM_IDLE ==> called(stop) || fsm.outgoingConnMgr == nil
 //@ func (*fsmHandler).established$2
 //@   claims at-call
 //@   at-call bgp.NewBGPNotificationMessage( requires len(arg2) == len(m.Body.(*bgp.BGPNotification).Data) + 2 && arg2[0] == m.Body.(*bgp.BGPNotification).ErrorCode && arg2[1] == m.Body.(*bgp.BGPNotification).ErrorSubcode
